@@ -13,6 +13,8 @@ pub fn registry() -> Vec<Box<dyn FamilyDyn>> {
         Box::new(FamRunner::new(crate::fam_thread::program_set)),
         Box::new(FamRunner::new(crate::fam_sem::program_set)),
         Box::new(FamRunner::new(crate::fam_async::program_set)),
+        Box::new(FamRunner::new(crate::fam_rand::program_set)),
+        Box::new(FamRunner::new(crate::fam_iso::program_set)),
     ]
 }
 
@@ -207,6 +209,86 @@ pub fn c02(ctx: &CheckCtx) -> CheckResult {
     res
 }
 
+/// C01: every execution is determined by its recorded schedule and replays identically from the
+/// printed string.
+pub fn c01(ctx: &CheckCtx) -> CheckResult {
+    let mut res = CheckResult::new("exploration");
+    let set = if ctx.tier.is_thorough() { "thorough" } else { "quick" };
+    let mut items: Vec<(&str, &str, Mode)> = Vec::new();
+    let seeds: Vec<u64> = if ctx.tier.is_thorough() { vec![0, 1, 0xdead_beef] } else { vec![ctx.seed] };
+    for seed in seeds {
+        let mode = Mode {
+            replay_check: true,
+            seed,
+            max_programs: if ctx.tier.is_thorough() { 3000 } else { 250 },
+            max_execs: 50_000,
+            ..Mode::default()
+        };
+        items.push(("rand", "quick", mode.clone()));
+        for f in ALL_FAMILIES {
+            items.push((f, set, mode.clone()));
+        }
+    }
+    run_e2(
+        ctx,
+        &mut res,
+        &items,
+        &[VKind::Other("Replay".into()), VKind::Abort],
+        if ctx.tier.is_thorough() { 1500.0 } else { 50.0 },
+    );
+    res.cov("rule", "programs = generated programs of the 7 primitive families plus a shuttle::rand family (first 250 per family in the quick tier, simplest first); evaluations = every execution of each program's complete choice tree under the explorer-scheduler, whose data draws come from the seeded stream a built-in scheduler would use; for each execution: (1) the schedule recorded by the runtime (CurrentSchedule) must equal the independently reconstructed sequence of answered scheduler calls, (2) its printed form is handed to ReplayScheduler::new_from_encoded under a recording wrapper and must reproduce every scheduler call (offered ids, current, yielding, chosen), every draw, every log entry of the body (results of all operations) and the same ending (pass / same panic / same deadlock report); (3) the same tree is explored again under UncontrolledNondeterminismCheckScheduler, which must never complain; distinct_nontrivial = programs with >= 2 distinct (log, ending) outcomes; 'traces_validated' = executions replayed identically");
+    res.assumptions.push("replay of random / PCT / URW / DFS / round-robin built-in schedulers over the seed interval is part of C09-C11 (same seed => same run; reported seed reproduces the iteration)".into());
+    res
+}
+
+/// C14: executions are isolated — B after any predecessor A behaves exactly like B alone.
+pub fn c14(ctx: &CheckCtx) -> CheckResult {
+    let mut res = CheckResult::new("exploration");
+    let mode = Mode {
+        iso_check: true,
+        iso_max_b: if ctx.tier.is_thorough() { 0 } else { 6 },
+        max_execs: if ctx.tier.is_thorough() { 3000 } else { 400 },
+        ..Mode::default()
+    };
+    run_e2(
+        ctx,
+        &mut res,
+        &[("iso", "quick", mode)],
+        &[VKind::Other("Isolation".into()), VKind::Abort],
+        if ctx.tier.is_thorough() { 1500.0 } else { 50.0 },
+    );
+    // in this mode `scheduling_decisions` counts pair runs and `traces_validated` the B executions
+    // whose log was identical after A and alone
+    if let Some(v) = res.coverage.remove("scheduling_decisions") {
+        res.coverage.insert("pair_runs(A then B in one Runner::run)".into(), v.clone());
+        res.coverage.insert("evaluations".into(), v);
+    }
+    res.cov("rule", "bodies use thread_local! (Cell counter and a drop-counted value), lazy_static! (drop-counted), a static Once, task labels, vector clocks, context_switches(), the recorded schedule length, drop-counted values on task stacks, a mutex and yields; for each body ALL complete schedules are enumerated by the explorer; predecessors A = every complete schedule and every proper prefix of one, stopped there by the scheduler answering None; successors B = complete schedules (quick: 6 evenly spread, thorough: all); each (A,B) is run as two executions of ONE Runner::run and B's full observation log + drop ledger is compared with B run alone in a fresh Runner::run; distinct_nontrivial = distinct (kind of predecessor, its length) classes");
+    res.assumptions.push("ContinueAfter cuts are covered by C13 (same teardown path as a scheduler stop)".into());
+    res
+}
+
+/// C15: vector clocks = happens-before.
+pub fn c15(ctx: &CheckCtx) -> CheckResult {
+    let mut res = CheckResult::new("exploration");
+    let set = if ctx.tier.is_thorough() { "thorough" } else { "quick" };
+    let mode = Mode {
+        clock_check: true,
+        clock_all_targets: ctx.tier.is_thorough(),
+        max_programs: if ctx.tier.is_thorough() { 4000 } else { 300 },
+        max_execs: 50_000,
+        ..Mode::default()
+    };
+    let items: Vec<(&str, &str, Mode)> = ["lock", "atomic", "sync", "mpsc", "thread", "sem", "async"].iter().map(|f| (*f, set, mode.clone())).collect();
+    run_e2(ctx, &mut res, &items, &[VKind::Other("Clock".into()), VKind::Abort], if ctx.tier.is_thorough() { 1500.0 } else { 50.0 });
+    if let Some(v) = res.coverage.remove("scheduling_decisions") {
+        res.coverage.insert("must_edges_checked".into(), v);
+    }
+    res.cov("rule", "every execution of the complete choice tree of the generated programs (first 300 per family in the quick tier) with shuttle::current::clock() sampled after every operation; HB_must = program order + spawn->child start + child end->join + per-primitive API-level rules (unlock->later lock, write-unlock->later read/write lock, read-unlock->later write lock, atomic write->later read/RMW of the variable, send->its receive, k-th receive->(k+c)-th send on a bounded channel, notify_all->the waits it released, barrier: before-arrival->every departure of the generation, winning call_once->later call_once, flag store->later flag load): the later clock must dominate the earlier one; HB_may = closure of program order, spawn/join and 'any two operations on a common object, earlier->later': two tasks that have each advanced their own clock component may only be clock-ordered if such a chain exists; per-task clocks never decrease; target-clock replay: ReplayScheduler restricted to the clock of a thread's last operation (main only in quick, every thread in thorough) must not fail and must reproduce every operation in the HB_must-past of the target with the same result; traces_validated = target-clock replays");
+    res.assumptions.push("documented over-approximations (waiter clock frozen at enqueue, last_acquire on failed tries) only add edges, hence the two-relation form".into());
+    res
+}
+
 /// C03: endings — deadlock reported iff the model is stuck with an unfinished attached task, with
 /// exactly the unfinished tasks; otherwise a normal ending.
 pub fn c03(ctx: &CheckCtx) -> CheckResult {
@@ -290,7 +372,10 @@ fn wrapper_transparency(_ctx: &CheckCtx, res: &mut CheckResult) {
 pub fn run_check(id: &str, tier: Tier) -> ! {
     let ctx = CheckCtx::new(id, tier);
     let res = match id {
+        "C01" => c01(&ctx),
         "C02" => c02(&ctx),
+        "C14" => c14(&ctx),
+        "C15" => c15(&ctx),
         "C03" => c03(&ctx),
         "C08" => c08(&ctx),
         "C04" => c04(&ctx),
